@@ -2,6 +2,8 @@
 
 generator -> real qcelemental (in process) -> same molecules as lines to the Lean driver -> diff
 (canonical fields, the concatenated json preimage, sha1(preimage) == get_hash()),
+every driver line answered THREE ways (implementation, hand model Model/Hash.lean, and the evaluator of Model/HashAst.lean at
+the terms harness/c11_src.py re-reads from the source on every run - Props/C11Src.lean proves the last two equal for all inputs),
 plus an independent Python oracle: on every pair of molecules of a group
     hash equal  <=>  == True  <=>  the listed fields agree after the documented rounding.
 """
@@ -23,11 +25,12 @@ from fractions import Fraction
 
 import numpy as np
 
+from c11_src import gen_hash_src
 from common import Ctx, Finding, Outcome, err_class
 
 PROPERTY = "C11"
 LEAN_TARGETS = ["QcelVerif.Props.C11", "QcelVerif.Props.C11Preimage", "QcelVerif.Props.C11Examples", "QcelVerif.Lemmas.HashConcrete",
-                "QcelVerif.Props.C11Concrete", "QcelVerif.Props.C11Spec", "QcelVerif.Driver.C11"]
+                "QcelVerif.Props.C11Concrete", "QcelVerif.Props.C11Spec", "QcelVerif.Model.HashAst", "QcelVerif.Props.C11Src", "QcelVerif.Driver.C11"]
 DRIVER = "QcelVerif/Driver/C11.lean"
 THEOREMS = [
     ("QcelVerif.Hash.hash_of_canon", "canon a = canon b -> hash a = hash b (and == holds), for any printing / SHA-1 parameters"),
@@ -83,11 +86,33 @@ THEOREMS = [
     ("QcelVerif.Hash.preimage_matches_source", "preimage = table-driven preimage at the field list READ FROM THE SOURCE (order included)"),
     ("QcelVerif.Hash.canon_matches_source", "canon = table-driven canon at the decimals READ FROM THE SOURCE"),
     ("QcelVerif.Hash.zeroBand_matches_source", "zeroBand k r = (r.mag * B^(k+O) < 10^k) with B, O READ FROM THE SOURCE"),
+    # ---- Props/C11Src.lean: the hand model equals the generic evaluator (Model/HashAst.lean) at the terms re-read from the source (Gen/HashSrc.lean)
+    ("QcelVerif.Hash.src_translated", "the translator harness/c11_src.py recognised every one of the five code regions on this run (otherwise it emits inert terms and this fails)"),
+    ("QcelVerif.Hash.src_prepArr_eq", "source-derived float_prep (isinstance dispatch in source order, np.around, the zero-band assignment with its threshold expression and +0) on a list / ndarray entry = prepArr, for every double, every `around`, every rounding fl"),
+    ("QcelVerif.Hash.src_prepScalar_eq", "source-derived float_prep on a float / int (round, then `if array == -0.0: array = 0.0`) = prepScalar, for every double and every `around`"),
+    ("QcelVerif.Hash.src_prep_typeError", "source-derived float_prep on any other class raises (the final else)"),
+    ("QcelVerif.Hash.src_preimage_eq", "the string the source's get_hash loop builds (hash_fields in source order, getattr, first matching branch of the if/elif chain -> float_prep with the named constant, json.dumps with the default= hook, concatenation) = preimage (canon m), for every molecule and all parameters"),
+    ("QcelVerif.Hash.src_hash_eq", "source-derived get_hash() = the model's hash, for every molecule"),
+    ("QcelVerif.Hash.src_digest_sha1_utf8", "the source hashes with hashlib.sha1 ... hexdigest over concat.encode('utf-8'); json.dumps gets no sort_keys and does get default=lambda x: x.ravel().tolist()"),
+    ("QcelVerif.Hash.src_molEq_eq", "source-derived __eq__ on two Molecule objects never raises and equals molEq: self.get_hash() == other.get_hash() (left self, right other)"),
+    ("QcelVerif.Hash.src_prepBonds_eq", "source-derived connectivity block (checks in source order, (int(min), int(max), float(order)) tuple, plain conn.sort()) = prepBonds on every bond list with orders in [0,5]"),
+    ("QcelVerif.Hash.src_prepBonds_rejects", "the source-derived block refuses an entry with negative first index / negative second index / order outside [0,5] by its 1st / 2nd / 3rd check, whatever follows"),
+    ("QcelVerif.Hash.src_construct_eq", "source-derived construction (geometry_noise default read from the kwargs.pop call, float_prep(values['geometry'], geometry_noise) on the validate branch, bonds through the connectivity block) = construct, bond orders in [0,5]"),
+    ("QcelVerif.Hash.src_hash_eq_iff_fields_agree", "HEADLINE over the source-derived get_hash: hash equal <-> the ten listed fields agree after rounding (validated, bounded, out of the zero band, concrete rounding/printing; SHA-1 not colliding on the two source-derived preimages)"),
+    ("QcelVerif.Hash.src_eq_iff_fields_agree", "same for the source-derived ==: a == b is True <-> the listed fields agree after rounding"),
+    ("QcelVerif.Hash.src_hash_indep_nonhash", "the source-derived hash does not depend on name, comment, labels, identifiers, provenance, extras, frame flags, id (any parameters)"),
+    ("QcelVerif.Hash.src_hash_sign_of_zero", "the source-derived hash does not depend on the sign of zero in geometry, masses, charge, fragment charges"),
+    ("QcelVerif.Hash.src_hash_noise", "the source-derived hash is unchanged by coordinate noise <= 1e-10 away from rounding boundaries"),
+    ("QcelVerif.Hash.src_bonds_permuted_reversed", "reverse any bonds and permute the list: the source-derived connectivity block stores the same list (orders in [0,5])"),
+    ("QcelVerif.Hash.src_construct_hash", "source-derived construction followed by the source-derived hash = source-derived hash of the un-rounded geometry with canonical bonds"),
 ]
 TRUSTED_BASE = [
     "Lean 4.33 kernel; axioms per theorem audited on every run (subset of propext, Classical.choice, Quot.sound)",
     "hand-written model Model/Hash.lean of float_prep, the property accessors' defaults, get_hash's field loop + json.dumps layout, __eq__, construction-time geometry rounding and the bond canonicalisation of from_arrays; tied by differential correspondence (canonical fields, the whole json preimage, sha1(preimage) == get_hash()). REGENERATED FROM THE SOURCE and proved equal to the model's (Props/C11Spec.lean, broken build = broken obligation): the three *_NOISE constants, hash_fields with its order, the field -> float_prep-constant map of get_hash, base and exponent offset of float_prep's zero band",
-    "translator gen_hash_spec in harness/c11.py (python `ast` of qcelemental/models/molecule.py -> lean/QcelVerif/Gen/HashSpec.lean; only the syntax tree is read, so whitespace/comments/branch order are immaterial; a shape it does not recognise is reported as a broken obligation, never guessed). The construction-time default `geometry_noise = kwargs.pop(..., GEOMETRY_NOISE)` is NOT re-read (differential only: the `cons` lines of the driver stream)",
+    "REGENERATED FROM THE SOURCE as terms of a small syntax (Model/HashAst.lean) on every run, with the hand model PROVED equal, for all inputs, to the generic evaluator at those terms (Props/C11Src.lean; broken build = broken obligation): (1) float_prep's whole body - isinstance dispatch in source order, np.around / round, the zero-band assignment with its threshold expression and the zero assigned, `if array == -0.0: array = 0.0`, the final raise; (2) get_hash's whole body - hashlib.sha1 / utf-8 / hexdigest, the loop over hash_fields, getattr, the if/elif chain (which field goes through float_prep with which constant, first match wins, every other field plain), the json.dumps keywords (default= hook present, no sort_keys), `+=` concatenation; (3) __eq__ - the isinstance chain and `self.get_hash() == other.get_hash()` with its operands; (4) the connectivity block of from_arrays.py - the three validations in source order, the (int(min), int(max), float(order)) tuple, `conn.sort()` with its keywords; (5) Molecule.__init__'s `geometry_noise = kwargs.pop('geometry_noise', GEOMETRY_NOISE)` and the `elif validate or geometry_prep: values['geometry'] = float_prep(values['geometry'], geometry_noise)` branch. The driver runs this evaluator as a THIRD voice on every line (implementation vs hand model vs source-derived)",
+    "what the source-derived evaluator itself takes from python / numpy, by hand and tied differentially only: np.around(x,k) = rint(fl(x*10^k)) keeping the sign bit and round(x,k) exact (as in Model/Hash.lean), array statements acting entry by entry, `==` ignoring the sign of zero, json.dumps' list / scalar layout (renderList ...), tuple comparison being lexicographic and list.sort a stable sort, getattr = the property accessors with their defaults (masses from the mass table, real, fragments, fragment charges / multiplicities). Recorded by the translator but not evaluated: the dict operand of __eq__ (`Molecule(orient=False, **other)`), the `if orient:` branch of __init__, an explicit geometry_noise= keyword, float(at).is_integer() on a non-integral index (indices are integers in the model)",
+    "translator gen_hash_spec in harness/c11.py (python `ast` of qcelemental/models/molecule.py -> lean/QcelVerif/Gen/HashSpec.lean; only the syntax tree is read, so whitespace/comments/branch order are immaterial; a shape it does not recognise is reported as a broken obligation, never guessed)",
+    "translator gen_hash_src in harness/c11_src.py (python `ast` of molecule.py and molparse/from_arrays.py -> lean/QcelVerif/Gen/HashSrc.lean): statement order, branch order and every sub-expression of the five regions are translated; anything outside the small syntax raises (broken obligation) and leaves inert terms with translationOk := false, so Props/C11Src.lean fails with it. Trusted: that it maps each recognised python shape to the constructor documented for it in Model/HashAst.lean",
     "SHA-1 is an abstract parameter of the theorems (collision-freeness is an explicit hypothesis, never proved); the harness applies hashlib.sha1 to the model's preimage",
     "float printing: the driver's concrete printer reprRd/reprRat is PROVED (Props/C11Concrete.lean) to print the exact value mag/10^k - hence injective, non-empty, over 0-9 + - . e - for every k and every rounded value, and for bond orders whose denominator divides 10^k, k <= 18; the theorems are restated at these concrete printers with the Params.Ok hypothesis gone. What stays trusted: CPython's repr(float)/json.dumps prints the same characters as reprRd for the double nearest to a decimal of <= 15 significant digits - compared character by character on the whole preimage of every generated molecule",
     "np.around is modelled as rint(fl(x*10^k)); the driver's fl = rndDouble (round-to-nearest-even to 53 bits, normal range) is PROVED to satisfy FlOk (|fl y - y| <= 1/256 for |y| <= 2^45) and the theorems are restated at it with the FlOk hypothesis gone. What stays trusted: numpy's product x*10**k is that correctly rounded double (IEEE-754) - compared with numpy on value streams of arbitrary doubles including decimal near-ties (default masses such as 207.9766525 sit on them). Python round() (scalar branch) is exact (fl = id)",
@@ -103,6 +128,7 @@ ASSUMPTIONS = [
     "the mixed route Molecule.from_data(text, connectivity=...) (structural kwargs merged after validation; bonds stored un-canonicalised) is outside the property's construction routes: not generated, no demand",
     "noise twins: coordinates at least 0.05 rounding units from a rounding boundary, noise <= 1e-10 (the property's quantifier)",
     "records edited on routes that do not re-validate (copy(update=), dict with validated=True, validate=False, edited payloads) keep their bond list in the canonical form validation stores (oriented, sorted): a hand-made unsorted bond list inside an un-revalidated record is not a validated molecule (same exclusion as from_data(text, connectivity=...)); every other field of such a record is taken as it is and judged by the pairwise iff on its attributes",
+    "source-derived bond / construction theorems (src_prepBonds_eq, src_construct_eq, src_bonds_permuted_reversed, src_construct_hash): bond orders in [0, 5] (exactly what the connectivity block accepts; outside it src_prepBonds_rejects proves the refusal) and integral atom indices (naturals by type; float(at).is_integer() on a non-integral index is not modelled, not generated)",
     "the theorem preimage_injective needs the charge tie (charge = sum of fragment charges, exact for the integer charges in scope); fractional fragment charges are generated only for the zero-band known finding",
 ]
 RULE = (
@@ -122,6 +148,8 @@ RULE = (
     "payloads) with ONE listed field changed above its rounding unit while the now stale identifiers ride along - judged by the pairwise iff. ==/!= is evaluated "
     "next to hash equality on EVERY pair of a group: all six forms (a==b, b==a, a!=b, b!=a, a==b.dict(), b==a.dict()) on every pair against the pinned molecule "
     "and on every anomalous pair, one form (rotating through both operators and both operand orders) on every other pair. "
+    "Every driver line (hash, cons, prep) is answered three ways - implementation, hand model, source-derived evaluator at the terms re-read from the source on this "
+    "run - and each Lean voice is compared with the implementation separately (mismatch:* for the hand model, mismatch:src_* for the source-derived one). "
     "A case is distinct by (clause, hash pair) and non-trivial when it is a pair of different constructions/inputs."
 )
 LEVEL_TEXT = (
@@ -131,10 +159,15 @@ LEVEL_TEXT = (
     "(collision-freeness is a hypothesis of the 'only if' direction), the zero band (0, 5^-(k+1)) is excluded from the iff (known finding), and that CPython/numpy "
     "compute what the concrete functions compute is differential (character-by-character preimage comparison; value streams). The constants and the field list the "
     "model hard-codes (noise constants, hash_fields and its order, field -> constant map, zero-band base/offset) are regenerated from molecule.py on every run and "
-    "proved equal to the model's. The rest of the model is tied to the code by differential runs comparing canonical fields and the complete json preimage; "
-    "construction routes, ==/!= and copy-with-edit are oracle-only."
+    "proved equal to the model's. Beyond the constants, the CODE of float_prep, get_hash, __eq__, the connectivity block of from_arrays and the constructor's "
+    "geometry rounding is now re-read by `ast` on every run into terms of a small syntax, and the hand model is proved equal for all inputs to a generic evaluator "
+    "at those terms (Props/C11Src.lean); the headline theorems (hash equal iff rounded listed fields agree; independence from unlisted fields; sign of zero and "
+    "sub-rounding noise; bond order and orientation; construction rounding invisible) are restated over the source-derived functions. What is still by hand is the "
+    "evaluator's reading of the python / numpy primitives (np.around, round, json.dumps layout, tuple order, sort, the property accessors' defaults) - tied "
+    "differentially, three-way (implementation, hand model, source-derived) on canonical fields and the complete json preimage; construction routes, the dict "
+    "operand of ==, != and copy-with-edit are oracle-only."
 )
-TECHNIQUE = "Lean 4 proof of canonical-form / injectivity / sorting theorems about a hand model, with the numeric and printing parameters discharged for the executed functions + ast translator for constants and field list + behavioural correspondence + independent pairwise oracle"
+TECHNIQUE = "Lean 4 proof of canonical-form / injectivity / sorting theorems about a hand model, with the numeric and printing parameters discharged for the executed functions + ast translators for constants / field list and for the code of float_prep, get_hash, __eq__, the connectivity block and the constructor's rounding (small syntax + evaluator proved equal to the hand model) + three-way behavioural correspondence + independent pairwise oracle"
 
 
 # --------------------------------------------------------------------------------------
@@ -408,7 +441,7 @@ def gen_hash_spec(ctx=None) -> None:
         f.write_text(body)
 
 
-TRANSLATORS = [gen_hash_spec]
+TRANSLATORS = [gen_hash_spec, gen_hash_src]
 
 KNOISE = {"masses": 6, "geometry": 8, "fragment_charges": 4}
 ZERO_BAND_KIND = "oracle:zero_band_collision"
@@ -1342,14 +1375,31 @@ def tie_lines_for(mem: Member, lines, checks):
         checks.append(("cons", mem, stored + "|" + bonds_str(mem.mol.connectivity) + "|" + stored, None))
 
 
+def split_voices(ml, n):
+    """a driver answer `<hand model>[TAB ...]` -> its n TAB-separated voices (hand model first, source-derived after), or None"""
+    parts = ml.split("\t") if isinstance(ml, str) else []
+    return parts if len(parts) == n else None
+
+
 def compare_tie(out: Outcome, checks, model):
+    """THREE-WAY on every line: implementation vs hand model (Model/Hash.lean) vs source-derived (the evaluator of Model/HashAst.lean at the
+    terms harness/c11_src.py re-read from the source on this run).  Each voice is compared with the implementation separately."""
     for (kind, mem, exp, pre), ml in zip(checks, model):
         case = {"block": "single", "spec": mem.spec, "route": mem.route, "op": kind}
         if kind == "hash":
-            if not ml.startswith("ok ") or "\t" not in ml:
+            voices = split_voices(ml[3:], 4) if ml.startswith("ok ") else None
+            if voices is None:
                 out.mismatches.append(Finding("mismatch:hash", case, observed=exp[:300], expected=ml[:300], detail="model rejected the molecule"))
                 continue
-            mc, mp = ml[3:].split("\t", 1)
+            mc, mp, sc, sp = voices
+            # --- source-derived voice
+            if sc != exp:
+                out.mismatches.append(Finding("mismatch:src_canon", case, observed=exp[:600], expected=sc[:600], detail="canonical fields: implementation vs SOURCE-DERIVED get_hash loop (Gen/HashSrc.lean)"))
+            elif sp != pre:
+                out.mismatches.append(Finding("mismatch:src_preimage", case, observed=pre[:600], expected=sp[:600], detail="json preimage: implementation vs SOURCE-DERIVED get_hash loop (Gen/HashSrc.lean)"))
+            else:
+                out.count("tie:src_hash_ok")
+            # --- hand model
             if mc != exp:
                 out.mismatches.append(Finding("mismatch:canon", case, observed=exp[:600], expected=mc[:600], detail="canonical fields: implementation (float_prep on the attributes) vs Lean model"))
             elif mp != pre:
@@ -1359,12 +1409,36 @@ def compare_tie(out: Outcome, checks, model):
             else:
                 out.count("tie:hash_ok")
                 if out.distribution.get("tie:hash_ok", 0) in (1, 400):
-                    out.sample({"route": mem.route, "label": mem.label, "canon": mc[:300], "preimage": mp[:300], "get_hash": mem.hash})
+                    out.sample({"route": mem.route, "label": mem.label, "canon": mc[:300], "preimage": mp[:300], "source_derived_preimage_equal": sp == mp, "get_hash": mem.hash})
         else:
-            if ml != "ok " + exp:
-                out.mismatches.append(Finding("mismatch:construct", case, observed=exp[:600], expected=ml[:600], detail="stored geometry / connectivity after construction vs Lean model (pre-rounding, bond canonicalisation)"))
+            voices = split_voices(ml, 2)
+            if voices is None:
+                out.mismatches.append(Finding("mismatch:construct", case, observed=exp[:600], expected=ml[:600], detail="driver answer without the source-derived voice"))
+                continue
+            hand, src = voices
+            if src != "ok " + exp:
+                out.mismatches.append(Finding("mismatch:src_construct", case, observed=exp[:600], expected=src[:600], detail="stored geometry / connectivity after construction vs SOURCE-DERIVED __init__ rounding + from_arrays connectivity block (Gen/HashSrc.lean)"))
+            else:
+                out.count("tie:src_construct_ok")
+            if hand != "ok " + exp:
+                out.mismatches.append(Finding("mismatch:construct", case, observed=exp[:600], expected=hand[:600], detail="stored geometry / connectivity after construction vs Lean model (pre-rounding, bond canonicalisation)"))
             else:
                 out.count("tie:construct_ok")
+
+
+def compare_prep(out: Outcome, case, exp, ml):
+    """float_prep value stream, three-way"""
+    voices = split_voices(ml, 2)
+    if voices is None:
+        out.mismatches.append(Finding("mismatch:float_prep", case, observed=exp, expected=ml, detail="driver answer without the source-derived voice"))
+        return
+    hand, src = voices
+    if src != exp:
+        out.mismatches.append(Finding("mismatch:src_float_prep", case, observed=exp, expected=src, detail="float_prep (implementation) vs SOURCE-DERIVED float_prep body (Gen/HashSrc.lean)"))
+    else:
+        out.count("tie:src_prep_ok")
+    if hand != exp:
+        out.mismatches.append(Finding("mismatch:float_prep", case, observed=exp, expected=hand, detail="float_prep (implementation) vs prepArr/prepScalar (model)"))
 
 
 def run_group(ctx, out: Outcome, rng, spec0, workdir, lines, checks, tag="gen"):
@@ -1681,8 +1755,8 @@ def prep_stream(ctx, out: Outcome):
     for ln, exp, case, ml in zip(lines, exps, cases, model):
         out.evaluations += 1
         out.count("prep:" + case["mode"])
-        if ml is not None and ml != exp:
-            out.mismatches.append(Finding("mismatch:float_prep", case, observed=exp, expected=ml, detail="float_prep (implementation) vs prepArr/prepScalar (model)"))
+        if ml is not None:
+            compare_prep(out, case, exp, ml)
     out.nontrivial(("prep_blocks", len(lines)))
 
 
@@ -1769,8 +1843,7 @@ def replay(ctx: Ctx, case) -> Outcome:
             exp = "ok " + " ".join(rd_str(x, k) for x in got)
             if ctx.model_available:
                 ml = ctx.run_model(DRIVER, [f"prep|{k}|{case['mode']}|" + " ".join(dstr(x) for x in xs)])[0]
-                if ml != exp:
-                    out.mismatches.append(Finding("mismatch:float_prep", case, observed=exp, expected=ml, detail="float_prep vs model"))
+                compare_prep(out, case, exp, ml)
             out.evaluations += 1
         else:
             return run(ctx)
